@@ -1,0 +1,58 @@
+//go:build verif
+
+// Package verifhook exposes observation points used by the external verification
+// harness. With the verif build tag off every function is an empty inlinable stub.
+package verifhook
+
+// Sinks are set by the harness before any parsing starts and never changed while
+// the library runs.
+var (
+	OnParseIter   func(stackLen, nonTerminals int)
+	OnShift       func(tokType int, terminal bool)
+	OnImplicitAnd func()
+	OnReduce      func(before, after int)
+	OnReducer     func(index int)
+	OnRender      func(op int, param bool)
+)
+
+// ParseIter is called at the top of every iteration of the shift/reduce loop.
+func ParseIter(stackLen, nonTerminals int) {
+	if OnParseIter != nil {
+		OnParseIter(stackLen, nonTerminals)
+	}
+}
+
+// Shift is called after a token was consumed from the lexer.
+func Shift(tokType int, terminal bool) {
+	if OnShift != nil {
+		OnShift(tokType, terminal)
+	}
+}
+
+// ImplicitAnd is called when the parser injects an AND between juxtaposed operands.
+func ImplicitAnd() {
+	if OnImplicitAnd != nil {
+		OnImplicitAnd()
+	}
+}
+
+// Reduce is called after a successful reduction with the stack length before and after.
+func Reduce(before, after int) {
+	if OnReduce != nil {
+		OnReduce(before, after)
+	}
+}
+
+// Reducer is called with the index of the reducer that fired.
+func Reducer(index int) {
+	if OnReducer != nil {
+		OnReducer(index)
+	}
+}
+
+// Render is called on entry of Base.Render / Base.RenderParam for a non-nil node.
+func Render(op int, param bool) {
+	if OnRender != nil {
+		OnRender(op, param)
+	}
+}
